@@ -311,9 +311,9 @@ func (w *worker) globGroup(idx int) {
 		cmd    []string
 		kind   string // command class for keys / counters
 		pats   []string
-		uni    []string              // the unfiltered listing this command filters
-		nameOf func(string) string   // what the pattern is applied to (id itself, or its value)
-		exp    []string              // filled at judgement time (don't-care names follow the reply)
+		uni    []string            // the unfiltered listing this command filters
+		nameOf func(string) string // what the pattern is applied to (id itself, or its value)
+		exp    []string            // filled at judgement time (don't-care names follow the reply)
 		parse  func(respc.Reply) ([]string, bool)
 		count  bool // reply is an integer to compare with the IDS twin
 		twin   int  // index of the IDS twin for COUNT / of the ASC twin for DESC
@@ -374,6 +374,7 @@ func (w *worker) globGroup(idx int) {
 		return m
 	}
 	gots := make([][]string, len(checks))
+	passed := make([]bool, len(checks))
 	for i, ck := range checks {
 		rp := reps[i]
 		ctx.Eval(1)
@@ -433,7 +434,10 @@ func (w *worker) globGroup(idx int) {
 				replay(map[string]any{"query": ck.cmd, "expected": ck.exp, "got": got, "values": valByID}))
 			continue
 		}
-		if ck.desc && gots[ck.twin] != nil && !eqStrings(got, reversed(gots[ck.twin])) {
+		passed[i] = true
+		// DESC == reverse(ASC), judged only when both replies passed their own
+		// comparison (otherwise the difference is the one already reported)
+		if ck.desc && gots[ck.twin] != nil && passed[ck.twin] && !eqStrings(got, reversed(gots[ck.twin])) {
 			w.violation("desc:"+ck.kind, fmt.Sprintf("%s is not the reverse of %s", q(ck.cmd), q(checks[ck.twin].cmd)),
 				replay(map[string]any{"desc_query": ck.cmd, "desc": got, "asc_query": checks[ck.twin].cmd, "asc": gots[ck.twin]}))
 		}
